@@ -389,6 +389,9 @@ structure Geo (t : VT) : Prop where
   /-- lines below the viewport have never been written -/
   blank : ∀ r c, t.viewportY + t.viewportHeight ≤ r → r < t.viewportHeight + t.scrollback →
     c < t.viewportWidth → cellAt t.data t.viewportWidth r c = ⟨32, t.defaultFg, t.defaultBg⟩
+  /-- every cell of the buffer is in the default colours (there is no way to change `curFg/curBg`) -/
+  cols : ∀ r c, r < t.viewportHeight + t.scrollback → c < t.viewportWidth →
+    (cellAt t.data t.viewportWidth r c).fg = t.defaultFg ∧ (cellAt t.data t.viewportWidth r c).bg = t.defaultBg
 
 /-- the invariant of an attached terminal -/
 structure Inv (t : VT) : Prop extends Geo t where
@@ -448,7 +451,7 @@ theorem Geo.frame {t t' : VT} (g : Geo t)
     (h8 : t'.defaultFg = t.defaultFg) (h9 : t'.defaultBg = t.defaultBg) (h10 : t'.curFg = t.curFg)
     (h11 : t'.curBg = t.curBg) (h12 : t'.viewportY = t.viewportY)
     (c1 : 1 ≤ t'.cursorY) (c2 : t'.cursorY ≤ t.viewportHeight) : Geo t' := by
-  refine ⟨?_, ?_, ?_, ?_, ?_, ?_, ?_, c1, ?_, ?_, ?_, ?_, ?_⟩
+  refine ⟨?_, ?_, ?_, ?_, ?_, ?_, ?_, c1, ?_, ?_, ?_, ?_, ?_, ?_⟩
   · rw [h1]; exact g.att
   · rw [h2]; exact g.w1
   · rw [h3]; exact g.h1
@@ -461,12 +464,18 @@ theorem Geo.frame {t t' : VT} (g : Geo t)
   · rw [h10, h8]; exact g.fg
   · rw [h11, h9]; exact g.bg
   · rw [h12, h3, h6, h2, h7, h8, h9]; exact g.blank
+  · rw [h3, h6, h2, h7, h8, h9]; exact g.cols
 
 
 /-! ### the console follows the viewport (C18) -/
 
 /-- the cell shown at viewport line `r`, column `c` (0-based) -/
 def vcell (t : VT) (r c : Nat) : Cell := cellAt t.data t.viewportWidth (t.viewportY + r) c
+
+/-- a `Write` call in the given colours (other calls: no condition) -/
+def CallDef (fg bg : UInt8) : Call → Prop
+  | .write _ f b _ _ => f = fg ∧ b = bg
+  | _ => True
 
 /-- `K0` is the console before the history; `t.out` is every call made since.  The console has
 the terminal's geometry, nothing was drawn outside the grid, every call was inside the grid, and
@@ -477,6 +486,8 @@ structure Sync (K0 : Console) (t : VT) : Prop where
   wf : WF (K0.applyLog t.out)
   outside : (K0.applyLog t.out).outside = K0.outside
   ok : ∀ c ∈ t.out, CallOk t.viewportWidth t.viewportHeight c
+  /-- every `Write` was in the console's default colours -/
+  cols : ∀ c ∈ t.out, CallDef t.defaultFg t.defaultBg c
   shows : t.active = true → ∀ r c, r < t.viewportHeight → c < t.viewportWidth →
     (K0.applyLog t.out).at r c = vcell t r c
 
@@ -487,9 +498,10 @@ theorem emit_out (t : VT) (cs : List Call) : (emit t cs).out = if t.active then 
 theorem Sync.frame {K0 : Console} {t t' : VT} (s : Sync K0 t) (ho : t'.out = t.out)
     (hw : t'.viewportWidth = t.viewportWidth) (hh : t'.viewportHeight = t.viewportHeight)
     (ha : t'.active = true → t.active = true)
-    (hv : ∀ r c, r < t.viewportHeight → c < t.viewportWidth → vcell t' r c = vcell t r c) : Sync K0 t' := by
+    (hv : ∀ r c, r < t.viewportHeight → c < t.viewportWidth → vcell t' r c = vcell t r c)
+    (hd : t'.defaultFg = t.defaultFg ∧ t'.defaultBg = t.defaultBg := by exact ⟨rfl, rfl⟩) : Sync K0 t' := by
   refine ⟨by rw [ho, hw]; exact s.w, by rw [ho, hh]; exact s.h, by rw [ho]; exact s.wf,
-    by rw [ho]; exact s.outside, by rw [ho, hw, hh]; exact s.ok, ?_⟩
+    by rw [ho]; exact s.outside, by rw [ho, hw, hh]; exact s.ok, by rw [ho, hd.1, hd.2]; exact s.cols, ?_⟩
   intro a r c hr hc
   rw [hh] at hr; rw [hw] at hc
   rw [ho, hv r c hr hc]
@@ -502,7 +514,9 @@ theorem Sync.write {K0 : Console} {t t' : VT} (s : Sync K0 t) {b fg bg : UInt8} 
     (hw : t'.viewportWidth = t.viewportWidth) (hh : t'.viewportHeight = t.viewportHeight)
     (ha : t'.active = t.active)
     (hv : ∀ r c, r < t.viewportHeight → c < t.viewportWidth →
-      vcell t' r c = if r = cy - 1 ∧ c = cx - 1 then ⟨b, fg, bg⟩ else vcell t r c) : Sync K0 t' := by
+      vcell t' r c = if r = cy - 1 ∧ c = cx - 1 then ⟨b, fg, bg⟩ else vcell t r c)
+    (hc : fg = t.defaultFg ∧ bg = t.defaultBg)
+    (hd : t'.defaultFg = t.defaultFg ∧ t'.defaultBg = t.defaultBg := by exact ⟨rfl, rfl⟩) : Sync K0 t' := by
   by_cases a : t.active = true
   · have ho' : t'.out = Call.write b fg bg cx cy :: t.out := by simpa [a] using ho
     have hxk : 1 ≤ cx ∧ cx ≤ (K0.applyLog t.out).w := by rw [s.w]; exact hx
@@ -517,13 +531,19 @@ theorem Sync.write {K0 : Console} {t t' : VT} (s : Sync K0 t) {b fg bg : UInt8} 
       cases hc with
       | head => exact ⟨hx.1, hx.2, hy.1, hy.2⟩
       | tail _ h => exact s.ok c h
+    · intro c hcm
+      rw [ho'] at hcm
+      rw [hd.1, hd.2]
+      cases hcm with
+      | head => exact hc
+      | tail _ h => exact s.cols c h
     · intro _ r c hr hc
       rw [hh] at hr; rw [hw] at hc
       rw [e, w5 r c (by rw [s.h]; exact hr) (by rw [s.w]; exact hc), hv r c hr hc, s.shows a r c hr hc]
   · have a' : t.active = false := by simpa using a
     have ho' : t'.out = t.out := by simpa [a'] using ho
     refine ⟨by rw [ho', hw]; exact s.w, by rw [ho', hh]; exact s.h, by rw [ho']; exact s.wf,
-      by rw [ho']; exact s.outside, by rw [ho', hw, hh]; exact s.ok, ?_⟩
+      by rw [ho']; exact s.outside, by rw [ho', hw, hh]; exact s.ok, by rw [ho', hd.1, hd.2]; exact s.cols, ?_⟩
     intro h; rw [ha, a'] at h; cases h
 
 /-- the viewport moved up by one line with a blank last line and, if Active, the console was
@@ -535,7 +555,8 @@ theorem Sync.scroll {K0 : Console} {t t' : VT} (s : Sync K0 t) {fg bg : UInt8}
     (hw : t'.viewportWidth = t.viewportWidth) (hh : t'.viewportHeight = t.viewportHeight)
     (ha : t'.active = t.active)
     (hv : ∀ r c, r < t.viewportHeight → c < t.viewportWidth →
-      vcell t' r c = if r + 1 < t.viewportHeight then vcell t (r + 1) c else ⟨32, fg, bg⟩) : Sync K0 t' := by
+      vcell t' r c = if r + 1 < t.viewportHeight then vcell t (r + 1) c else ⟨32, fg, bg⟩)
+    (hd : t'.defaultFg = t.defaultFg ∧ t'.defaultBg = t.defaultBg := by exact ⟨rfl, rfl⟩) : Sync K0 t' := by
   by_cases a : t.active = true
   · have ho' : t'.out = Call.fill 1 t.viewportHeight t.viewportWidth 1 fg bg ::
         Call.scroll Firefly.Gen.C17.scrollDirUp 1 :: t.out := by simpa [a] using ho
@@ -560,6 +581,15 @@ theorem Sync.scroll {K0 : Console} {t t' : VT} (s : Sync K0 t) {fg bg : UInt8}
         cases h with
         | head => exact ⟨rfl, Nat.le_refl 1, h1⟩
         | tail _ h => exact s.ok c h
+    · intro c hcm
+      rw [ho'] at hcm
+      rw [hd.1, hd.2]
+      cases hcm with
+      | head => exact True.intro
+      | tail _ h =>
+        cases h with
+        | head => exact True.intro
+        | tail _ h => exact s.cols c h
     · intro _ r c hr hc
       rw [hh] at hr; rw [hw] at hc
       have hrk : r < (K0.applyLog t.out).h := by rw [s.h]; exact hr
@@ -574,7 +604,7 @@ theorem Sync.scroll {K0 : Console} {t t' : VT} (s : Sync K0 t) {fg bg : UInt8}
   · have a' : t.active = false := by simpa using a
     have ho' : t'.out = t.out := by simpa [a'] using ho
     refine ⟨by rw [ho', hw]; exact s.w, by rw [ho', hh]; exact s.h, by rw [ho']; exact s.wf,
-      by rw [ho']; exact s.outside, by rw [ho', hw, hh]; exact s.ok, ?_⟩
+      by rw [ho']; exact s.outside, by rw [ho', hw, hh]; exact s.ok, by rw [ho', hd.1, hd.2]; exact s.cols, ?_⟩
     intro h; rw [ha, a'] at h; cases h
 
 @[simp] theorem emit_attached (t : VT) (cs) : (emit t cs).attached = t.attached := by unfold emit; split <;> rfl
@@ -645,11 +675,15 @@ theorem lf_spec {t : VT} (g : Geo t) :
           by simpa [syncScroll] using g.th, by simpa [syncScroll] using g.fits,
           by simpa [syncScroll] using g.size, by simpa [syncScroll] using g.cy1,
           by simpa [syncScroll] using g.cyh, by simp [syncScroll]; omega,
-          by simpa [syncScroll] using g.fg, by simpa [syncScroll] using g.bg, ?_⟩
-        intro r c h1 h2 h3
-        simp only [syncScroll, emit_viewportY, emit_viewportHeight, emit_scrollback, emit_viewportWidth,
-          emit_data, emit_defaultFg, emit_defaultBg] at h1 h2 h3 ⊢
-        exact g.blank r c (by omega) h2 h3
+          by simpa [syncScroll] using g.fg, by simpa [syncScroll] using g.bg, ?_, ?_⟩
+        · intro r c h1 h2 h3
+          simp only [syncScroll, emit_viewportY, emit_viewportHeight, emit_scrollback, emit_viewportWidth,
+            emit_data, emit_defaultFg, emit_defaultBg] at h1 h2 h3 ⊢
+          exact g.blank r c (by omega) h2 h3
+        · intro r c h2 h3
+          simp only [syncScroll, emit_viewportHeight, emit_scrollback, emit_viewportWidth,
+            emit_data, emit_defaultFg, emit_defaultBg] at h2 h3 ⊢
+          exact g.cols r c h2 h3
       refine ⟨updateDataOffset (syncScroll { t with cursorX := 1, viewportY := t.viewportY + 1 }), ?_, ?_, ?_, ?_, ?_, ?_⟩
       · simp [lf, nA, e2, hB, e3]
       · rw [udo_eq g1 (by simp [syncScroll]) (by simpa [syncScroll] using g.w1)]
@@ -706,10 +740,21 @@ theorem lf_spec {t : VT} (g : Geo t) :
           by simpa [syncScroll] using g.th, by simpa [syncScroll] using g.fits,
           by simp [syncScroll]; rw [s2, s1, g.size], by simpa [syncScroll] using g.cy1,
           by simpa [syncScroll] using g.cyh, by simpa [syncScroll] using g.vy,
-          by simpa [syncScroll] using g.fg, by simpa [syncScroll] using g.bg, ?_⟩
-        intro r c h1 h2 h3
-        simp only [syncScroll, emit_viewportY, emit_viewportHeight, emit_scrollback] at h1 h2
-        omega
+          by simpa [syncScroll] using g.fg, by simpa [syncScroll] using g.bg, ?_, ?_⟩
+        · intro r c h1 h2 h3
+          simp only [syncScroll, emit_viewportY, emit_viewportHeight, emit_scrollback] at h1 h2
+          omega
+        · intro r c h2 h3
+          simp only [syncScroll, emit_viewportHeight, emit_scrollback, emit_viewportWidth,
+            emit_data, emit_defaultFg, emit_defaultBg] at h2 h3 ⊢
+          rw [cells r c h3]
+          by_cases q1 : r < t.viewportY
+          · rw [if_pos q1]; exact g.cols r c h2 h3
+          · by_cases q2 : r < t.viewportY + t.viewportHeight - 1
+            · rw [if_neg q1, if_pos q2]; exact g.cols (r + 1) c (by omega) h3
+            · by_cases q3 : r = t.viewportY + t.viewportHeight - 1
+              · rw [if_neg q1, if_neg q2, if_pos q3]; exact ⟨rfl, rfl⟩
+              · rw [if_neg q1, if_neg q2, if_neg q3]; exact g.cols r c h2 h3
       refine ⟨updateDataOffset (syncScroll { t with cursorX := 1, data := d2 }), ?_, ?_, ?_, ?_, ?_, ?_⟩
       · simp [lf, nA, nB, hsd]
       · rw [udo_eq g1 (by simp [syncScroll]) (by simpa [syncScroll] using g.w1)]
@@ -769,15 +814,21 @@ theorem doWrite_spec {t : VT} (i : Inv t) (b : UInt8) (adv : Bool) :
       = (absVT t).put b := by
     simp [absVT, Term.put, g.tw, g.th, hgrid, g.fg, g.bg]
   have g1 : Geo { t with data := d', out := (emit t [.write b t.curFg t.curBg t.cursorX t.cursorY]).out } := by
-    refine ⟨g.att, g.w1, g.h1, g.tw, g.th, g.fits, by simp; rw [sz, g.size], g.cy1, g.cyh, g.vy, g.fg, g.bg, ?_⟩
-    intro r c h1 h2 h3
-    simp only at h1 h2 h3 ⊢
-    rw [cells r c h3, if_neg (by omega)]
-    exact g.blank r c h1 h2 h3
+    refine ⟨g.att, g.w1, g.h1, g.tw, g.th, g.fits, by simp; rw [sz, g.size], g.cy1, g.cyh, g.vy, g.fg, g.bg, ?_, ?_⟩
+    · intro r c h1 h2 h3
+      simp only at h1 h2 h3 ⊢
+      rw [cells r c h3, if_neg (by omega)]
+      exact g.blank r c h1 h2 h3
+    · intro r c h2 h3
+      simp only at h2 h3 ⊢
+      rw [cells r c h3]
+      split
+      · exact ⟨g.fg, g.bg⟩
+      · exact g.cols r c h2 h3
   have sy1 : ∀ K0, Sync K0 t →
       Sync K0 { t with data := d', out := (emit t [.write b t.curFg t.curBg t.cursorX t.cursorY]).out } := by
     intro K0 s
-    refine s.write (b := b) (fg := t.curFg) (bg := t.curBg) ⟨i.cx1, i.cxw⟩ ⟨g.cy1, g.cyh⟩ (emit_out _ _) rfl rfl rfl ?_
+    refine s.write (b := b) (fg := t.curFg) (bg := t.curBg) ⟨i.cx1, i.cxw⟩ ⟨g.cy1, g.cyh⟩ (emit_out _ _) rfl rfl rfl ?_ ⟨g.fg, g.bg⟩
     intro r c hr hc
     simp only [vcell]
     rw [cells _ c hc]
@@ -1226,9 +1277,13 @@ theorem attach_spec {w h sb : Nat} (tab : Nat) (fg bg : UInt8) (hw : 1 ≤ w) (h
   · have : (w * (h + sb) * 3) % 3 = 0 := by omega
     simp [attachTo, newVT, e1, e2, e3, this, attached0]
   · refine ⟨⟨rfl, hw, hh, rfl, rfl, hf, by simp [blankData, newVT, attached0], by simp [attached0], by simpa [attached0] using hh, by simp [newVT, attached0],
-      rfl, rfl, ?_⟩, by simp [attached0], by simpa [attached0] using hw, by simp [newVT, attached0]⟩
-    intro r c _ h2 h3
-    exact cells r c h2 h3
+      rfl, rfl, ?_, ?_⟩, by simp [attached0], by simpa [attached0] using hw, by simp [newVT, attached0]⟩
+    · intro r c _ h2 h3
+      exact cells r c h2 h3
+    · intro r c h2 h3
+      have := cells r c h2 h3
+      simp only [attached0] at this ⊢
+      rw [this]; exact ⟨rfl, rfl⟩
   · simp only [absVT, Term.new, newVT, attached0]
     congr 1
     apply eq_gridOf (by simp)
@@ -1328,7 +1383,7 @@ theorem Sync.cells_eq {K0 : Console} {t : VT} (s : Sync K0 t) (g : Geo t) (a : t
 /-- a freshly attached (Inactive, nothing drawn) terminal is in sync with any console of its shape -/
 theorem Sync.init {K0 : Console} {t : VT} (wf : WF K0) (hw : K0.w = t.viewportWidth) (hh : K0.h = t.viewportHeight)
     (ho : t.out = []) (ha : t.active = false) : Sync K0 t := by
-  refine ⟨by rw [ho]; exact hw, by rw [ho]; exact hh, by rw [ho]; exact wf, by rw [ho]; rfl, by rw [ho]; simp, ?_⟩
+  refine ⟨by rw [ho]; exact hw, by rw [ho]; exact hh, by rw [ho]; exact wf, by rw [ho]; rfl, by rw [ho]; simp, by rw [ho]; simp, ?_⟩
   intro h; rw [ha] at h; cases h
 
 /-! ### the reference terminal keeps its configuration -/
